@@ -36,6 +36,7 @@ type Rq struct {
 	Inm   int      `json:"inm"`   // client's own If-None-Match (0 none, k = etag class k, 9 = other)
 	Ims   int      `json:"ims"`   // client's own If-Modified-Since (0 none, 1 present)
 	Sp    int      `json:"sp"`    // Cache-Control spelling variant (0 = canonical)
+	Ccl   []string `json:"ccl"`   // Cache-Control field lines given verbatim (CcSyntax.tla); the abstract fields say what they mean
 	USp   int      `json:"usp"`   // URI spelling variant (0 = canonical)
 	Pragma int     `json:"pragma"` // 1: Pragma: no-cache and no Cache-Control
 	UGap   int     `json:"ugap"`   // 1: URI relation to its class is outside the property's explicit lists
@@ -73,6 +74,7 @@ type Ans struct {
 	CLocSO int     `json:"clocso"`
 	Fr    int      `json:"fr"`     // framing: 0 content-length, 1 chunked, 2 close-delimited, 3 http/1.0, 4 h2-shaped, 5 chunked+trailer
 	Sp    int      `json:"sp"`     // Cache-Control spelling variant
+	Ccl   []string `json:"ccl"`    // Cache-Control field lines given verbatim (CcSyntax.tla)
 	Upd   int      `json:"upd"`    // 304: 1 carries an updated X-Upd end-to-end field
 	Pragma int     `json:"pragma"`
 }
